@@ -113,6 +113,8 @@ type withItem struct {
 type actorDef struct {
 	Name    string
 	Mul     int // 0: single
+	MulTxt  string // how the count is written (leading zeros), "" = plain decimal
+	MulPar  string // name of the `parameter` the count comes from, if any
 	Role    string // as written (maybe plural)
 	With    []withItem
 	WithTxt string
@@ -367,6 +369,21 @@ func genCast(rng *rand.Rand, self string) *castCase {
 			if rng.Intn(40) == 0 {
 				d.Mul = 9 + rng.Intn(4) // two-digit suffixes
 			}
+			// counts written with leading zeros (a zero-padded -D value):
+			// still decimal - 010 is ten actors, 0012 twelve
+			switch rng.Intn(24) {
+			case 0:
+				d.Mul, d.MulTxt = 10, "010"
+			case 1:
+				d.Mul, d.MulTxt = 12, "0012"
+			case 2:
+				d.MulTxt = "00" + strconv.Itoa(d.Mul)
+			case 3:
+				d.Mul, d.MulTxt = 9, "09"
+			}
+			if d.MulTxt != "" && rng.Intn(2) == 0 {
+				d.MulPar = "cnt" + strconv.Itoa(i)
+			}
 			if rng.Intn(2) == 0 {
 				d.Role = r.Name + "s"
 			}
@@ -516,6 +533,15 @@ func (c *castCase) inject(rng *rand.Rand) {
 
 func (c *castCase) render() string {
 	var sb strings.Builder
+	for _, d := range c.Cast {
+		if d.MulPar != "" {
+			cnt := strconv.Itoa(d.Mul)
+			if d.MulTxt != "" {
+				cnt = d.MulTxt
+			}
+			sb.WriteString("parameter " + d.MulPar + " defaults to " + cnt + "\n")
+		}
+	}
 	for _, r := range c.Roles {
 		sb.WriteString("role " + r.Name)
 		if r.Extends != "" {
@@ -541,7 +567,14 @@ func (c *castCase) render() string {
 		if d.Mul == 0 {
 			sb.WriteString("  " + d.Name + " plays " + d.Role)
 		} else {
-			sb.WriteString("  " + d.Name + "* play " + strconv.Itoa(d.Mul) + " " + d.Role)
+			cnt := strconv.Itoa(d.Mul)
+			if d.MulTxt != "" {
+				cnt = d.MulTxt
+			}
+			if d.MulPar != "" {
+				cnt = "~" + d.MulPar + "~"
+			}
+			sb.WriteString("  " + d.Name + "* play " + cnt + " " + d.Role)
 		}
 		if d.WithTxt != "" {
 			sb.WriteString(" with " + d.WithTxt)
@@ -719,7 +752,12 @@ func genPlay(rng *rand.Rand, self string) (*castCase, string) {
 		pc := self + " -probe " + an
 		r.Actions = []*actionDef{{Name: an, Kind: "probe", Src: pc, Cmd: pc}}
 		if k == 0 || rng.Intn(2) == 0 {
-			sc := self + " -probe _spotlight; echo \"sigout 1\"; echo \"sigerr 2\" >&2; sleep 0.5"
+			// the action waits until the spotlight has printed its lines (and a
+			// little longer), so that they reach the signal filters before
+			// the play ends, however loaded the machine is
+			pc = pc + "; for n in $(seq 250); do test -e spot.done && break; sleep 0.02; done; sleep 0.2"
+			r.Actions = []*actionDef{{Name: an, Kind: "probe", Src: pc, Cmd: pc}}
+			sc := self + " -probe _spotlight; echo \"sigout 1\"; echo \"sigerr 2\" >&2; touch spot.done; sleep 30"
 			r.Spot = &actionDef{Name: "_spotlight", Kind: "probe", Src: sc, Cmd: sc}
 			r.Extra = []string{"signal so scalar at (?P<ts_now>)sigout (?P<scalar>\\d+)", "signal se scalar at (?P<ts_now>)sigerr (?P<scalar>\\d+)"}
 		}
@@ -1078,6 +1116,14 @@ func main() {
 				roleUse[a.Role.Name]++
 				if a.Role.Extends != "" {
 					nExt++
+				}
+			}
+			for _, a := range live {
+				if _, ok := paths[a.Name]; !ok {
+					// the cast line promises this actor; prepareDirs knows nothing of it
+					c.Execs = append(c.Execs, execObs{Actor: a.Name, Script: "(any)", Index: a.Index, With: a.Def.With, StreamsOK: true,
+						ExitErr: "prepareDirs made no directory and no script for actor " + a.Name + " of `" + a.Def.Name + "* play " + a.Def.MulTxt + "`"})
+					nExec++
 				}
 			}
 			for _, n := range roleUse {
